@@ -539,6 +539,7 @@ pub fn handler_prog(o: BodyOpts, read_all: bool) -> impl Strategy<Value = Handle
         resp_prog(o),
     )
         .prop_map(|(pre, read, pace, post, fail, resp)| HandlerProg {
+            pre_yields: 0,
             pre_delay_ms: pre,
             read,
             read_pace_ms: pace,
